@@ -1,4 +1,5 @@
 import ShellOp.Proofs.WorkerSys
+import ShellOp.Generated.Facts
 /-!
 # C03 — a queue runs one task at a time, head first; queues do not block each other
 
@@ -368,6 +369,27 @@ theorem other_steps_keep_worker (cfg : Cfg) (A : QName) (s s' : State) (l : Labe
     | exact ⟨qs, hq, rfl⟩
     | (refine ⟨qs, ?_, rfl⟩; simp only [upd]; split <;> simp_all)
     | (rename_i hqq; simp at hqq; subst hqq; refine ⟨qs, ?_, rfl⟩; simp only [upd]; split <;> simp_all)
+
+/-! ### facts read from the sources on every run (tie T1) -/
+
+/-- **C03.3, the queue name.** Every converter of a hook configuration (`config_v0.go`, `config_v1.go`)
+that fills in a missing `queue` writes the literal `"main"`, which is the name of the main queue of the
+queue set and the name the operator creates and starts first. -/
+theorem default_queue_is_main :
+    Facts.c03_defaultQueueLiterals = ["main"] ∧ Facts.c03_defaultQueueSites = 4 ∧
+    Facts.c03_mainQueueName = "main" ∧
+    Facts.c03_operatorQueueLiterals = ["NewNamedQueue:main", "WithMainName:main", "WithQueueName:main"] := by
+  decide
+
+/-- **C03.4, locks.** The task handler reaches the queues only through `GetByName` (a read lock on the
+set, released at once) and, when it combines binding contexts, `Iterate` / `Filter` on its own queue;
+it never calls `DoWithLock` and never holds a queue lock while the hook runs (the lock skeleton of
+`TaskQueue.Start` shows `Handler(t)` outside `withLock`). -/
+theorem handler_takes_no_queue_lock :
+    Facts.c03_queueCalls_taskHandler = [] ∧ Facts.c03_queueCalls_taskHandleHookRun = ["GetByName"] ∧
+    Facts.c03_queueCalls_taskHandleEnableKubernetesBindings = [] ∧ Facts.c03_queueCalls_handleRunHook = [] ∧
+    Facts.c03_queueCalls_combineBindingContextForHook = ["Filter", "GetByName", "Iterate"] := by
+  decide
 
 /-! ### Non-vacuity and witnesses -/
 
